@@ -46,6 +46,65 @@ static void do_bool(const J& g, W& w) {
     w.kb("lat", ok).kv("err", err);
 }
 
+static void do_fracture(const J& g, W& w) {
+    Polygon* p = mk(g["p"]);
+    p->tag = make_tag(7, 3);
+    add_two_props(p->properties);
+    p->repetition.type = RepetitionType::Rectangular;
+    p->repetition.columns = 2;
+    p->repetition.rows = 3;
+    p->repetition.spacing = Vec2{100, 50};
+    double S = (double)g["s"].i();
+    Array<Polygon*> res = {};
+    p->fracture((uint64_t)g["limit"].i(), 1.0 / S, res);
+    bool ok = true;
+    log_polys(w, "pieces", res, S, ok);
+    bool same = true;
+    for (uint64_t i = 0; i < res.count; i++) {
+        same = same && res[i]->tag == p->tag && res[i]->repetition.type == RepetitionType::Rectangular &&
+               res[i]->repetition.columns == 2 && res[i]->repetition.rows == 3 &&
+               res[i]->repetition.spacing == p->repetition.spacing &&
+               props_digest(res[i]->properties) == props_digest(p->properties) &&
+               res[i]->properties != p->properties;
+    }
+    w.kb("same_meta", same).kb("lat", ok).kv("err", 0);
+    free_polys(res);
+}
+
+static void do_slice(const J& g, W& w) {
+    Polygon* p = mk(g["p"]);
+    double S = (double)g["s"].i();
+    Array<double> pos = {};
+    for (size_t i = 0; i < g["cuts"].size(); i++) pos.append((double)g["cuts"][i].i() / 2.0);
+    uint64_t nb = pos.count + 1;
+    Array<Polygon*>* bins = (Array<Polygon*>*)allocate_clear(nb * sizeof(Array<Polygon*>));
+    ErrorCode e = slice(*p, pos, g["axis"].s() == "x", S, bins);
+    bool ok = true;
+    w.key("bins").begin_arr();
+    for (uint64_t b = 0; b < nb; b++) {
+        W inner;
+        log_polys(inner, "x", bins[b], S, ok);
+        w.raw(inner.s.substr(4));
+        free_polys(bins[b]);
+    }
+    w.end_arr();
+    w.kb("lat", ok).kv("err", (int64_t)e);
+}
+
+static void do_offset(const J& g, W& w) {
+    Array<Polygon*> A = {};
+    mk_group(g["polys"], A);
+    double S = (double)g["s"].i();
+    const std::string& j = g["join"].s();
+    OffsetJoin join = j == "round" ? OffsetJoin::Round : j == "miter" ? OffsetJoin::Miter : OffsetJoin::Bevel;
+    Array<Polygon*> res = {};
+    ErrorCode e = offset(A, (double)g["d"].i(), join, (double)g["tol"].i(), S, g["union"].t(), res);
+    bool ok = true;
+    log_polys(w, "res", res, S, ok);
+    w.kb("lat", ok).kv("err", (int64_t)e);
+    free_polys(res);
+}
+
 int main(int argc, char** argv) {
     if (argc < 3) return 2;
     gdstk::set_error_logger(NULL);
@@ -57,6 +116,9 @@ int main(int argc, char** argv) {
         w.begin_obj().ks("e", g["k"].s()).key("g").raw(line);
         const std::string& k = g["k"].s();
         if (k == "bool") do_bool(g, w);
+        else if (k == "fracture") do_fracture(g, w);
+        else if (k == "slice") do_slice(g, w);
+        else if (k == "offset") do_offset(g, w);
         w.end_obj();
         fputs(w.s.c_str(), out);
         fputc('\n', out);
